@@ -11,6 +11,11 @@
 //   <pid> mv   <old> <new>     rename family (succeeded)
 //   <pid> fk   <child pid>     fork / posix_spawn[p] returned a child (0 = child pid not known)
 //   <pid> wt   <child pid>     wait / waitpid / wait3 / wait4 / waitid reaped that child
+//   <pid> mkfail <template>    the injected fault below made this mkstemp-family call fail
+// Fault: env C14_FAULT = "tmp:<k>:<how>" makes the k-th call of the mkstemp family IN THE DRIVER PROCESS (the process
+// whose executable is $C14_REAL_CHIBICC, and children it forks without exec; each process counts for itself) fail with
+// ENOSPC - a failure that originates in the driver itself, after the steps it has already run.  Other values of
+// C14_FAULT belong to the step shim.
 // fk/wt records of one process are in its program order: a process that forks while an earlier child is unreaped
 // runs steps concurrently (vfork cannot be wrapped; such a driver is recognised by its overlapping step records).
 // The checker decides which `cr` paths are temporaries (location), so nothing is filtered here.
@@ -125,16 +130,42 @@ __attribute__((constructor)) static void c14_init(void) {
   static __typeof__(name) *real; \
   if (!real) real = dlsym(RTLD_NEXT, #name)
 
+// ---- injected failure of the driver's own temporary-file creation ------------
+static int tmp_fault_k = -1;   // -1: not looked at yet; 0: none
+static int tmp_calls;
+
+static int tmp_fault_now(const char *tmpl) {
+  if (tmp_fault_k < 0) {
+    tmp_fault_k = 0;
+    const char *f = getenv("C14_FAULT"), *drv = getenv("C14_REAL_CHIBICC");
+    int k = 0;
+    if (f && drv && !strncmp(f, "tmp:", 4) && sscanf(f + 4, "%d", &k) == 1 && k > 0) {
+      char exe[PATH_MAX], want[PATH_MAX];
+      ssize_t n = readlink("/proc/self/exe", exe, sizeof exe - 1);
+      if (n > 0) {
+        exe[n] = 0;
+        if (realpath(drv, want) && !strcmp(exe, want))
+          tmp_fault_k = k;
+      }
+    }
+  }
+  if (tmp_fault_k <= 0 || ++tmp_calls != tmp_fault_k)
+    return 0;
+  rec("mkfail", AT_FDCWD, tmpl, 0, NULL);
+  errno = ENOSPC;
+  return 1;
+}
+
 // ---- the mkstemp family -------------------------------------------------
-int mkstemp(char *t) { REAL(mkstemp); int r = real(t); if (r >= 0) rec("mk", AT_FDCWD, t, 0, NULL); return r; }
-int mkstemp64(char *t) { REAL(mkstemp64); int r = real(t); if (r >= 0) rec("mk", AT_FDCWD, t, 0, NULL); return r; }
-int mkostemp(char *t, int f) { REAL(mkostemp); int r = real(t, f); if (r >= 0) rec("mk", AT_FDCWD, t, 0, NULL); return r; }
-int mkostemp64(char *t, int f) { REAL(mkostemp64); int r = real(t, f); if (r >= 0) rec("mk", AT_FDCWD, t, 0, NULL); return r; }
-int mkstemps(char *t, int l) { REAL(mkstemps); int r = real(t, l); if (r >= 0) rec("mk", AT_FDCWD, t, 0, NULL); return r; }
-int mkstemps64(char *t, int l) { REAL(mkstemps64); int r = real(t, l); if (r >= 0) rec("mk", AT_FDCWD, t, 0, NULL); return r; }
-int mkostemps(char *t, int l, int f) { REAL(mkostemps); int r = real(t, l, f); if (r >= 0) rec("mk", AT_FDCWD, t, 0, NULL); return r; }
-int mkostemps64(char *t, int l, int f) { REAL(mkostemps64); int r = real(t, l, f); if (r >= 0) rec("mk", AT_FDCWD, t, 0, NULL); return r; }
-char *mkdtemp(char *t) { REAL(mkdtemp); char *r = real(t); if (r) rec("mk", AT_FDCWD, t, 0, NULL); return r; }
+int mkstemp(char *t) { REAL(mkstemp); if (tmp_fault_now(t)) return -1; int r = real(t); if (r >= 0) rec("mk", AT_FDCWD, t, 0, NULL); return r; }
+int mkstemp64(char *t) { REAL(mkstemp64); if (tmp_fault_now(t)) return -1; int r = real(t); if (r >= 0) rec("mk", AT_FDCWD, t, 0, NULL); return r; }
+int mkostemp(char *t, int f) { REAL(mkostemp); if (tmp_fault_now(t)) return -1; int r = real(t, f); if (r >= 0) rec("mk", AT_FDCWD, t, 0, NULL); return r; }
+int mkostemp64(char *t, int f) { REAL(mkostemp64); if (tmp_fault_now(t)) return -1; int r = real(t, f); if (r >= 0) rec("mk", AT_FDCWD, t, 0, NULL); return r; }
+int mkstemps(char *t, int l) { REAL(mkstemps); if (tmp_fault_now(t)) return -1; int r = real(t, l); if (r >= 0) rec("mk", AT_FDCWD, t, 0, NULL); return r; }
+int mkstemps64(char *t, int l) { REAL(mkstemps64); if (tmp_fault_now(t)) return -1; int r = real(t, l); if (r >= 0) rec("mk", AT_FDCWD, t, 0, NULL); return r; }
+int mkostemps(char *t, int l, int f) { REAL(mkostemps); if (tmp_fault_now(t)) return -1; int r = real(t, l, f); if (r >= 0) rec("mk", AT_FDCWD, t, 0, NULL); return r; }
+int mkostemps64(char *t, int l, int f) { REAL(mkostemps64); if (tmp_fault_now(t)) return -1; int r = real(t, l, f); if (r >= 0) rec("mk", AT_FDCWD, t, 0, NULL); return r; }
+char *mkdtemp(char *t) { REAL(mkdtemp); if (tmp_fault_now(t)) return NULL; char *r = real(t); if (r) rec("mk", AT_FDCWD, t, 0, NULL); return r; }
 FILE *tmpfile(void) { REAL(tmpfile); FILE *r = real(); if (r) rec("anon", AT_FDCWD, "/-", 0, NULL); return r; }
 FILE *tmpfile64(void) { REAL(tmpfile64); FILE *r = real(); if (r) rec("anon", AT_FDCWD, "/-", 0, NULL); return r; }
 
